@@ -470,6 +470,9 @@ func (c *Ctx) returnsOf(fname string) []string {
 	var out []string
 	for _, in := range Instrs(fn, IsReturn) {
 		r := in.(*ssa.Return)
+		if b := r.Block(); b.Index != 0 && len(b.Preds) == 0 {
+			continue // synthetic recover block
+		}
 		if len(r.Results) > 0 {
 			out = append(out, c.P.Render(returnedValue(r, 0)))
 		}
@@ -558,4 +561,91 @@ func (c *Ctx) returnsMatching(fname, sub string) []string {
 		}
 	}
 	return out
+}
+
+// anonWith returns the name of the anonymous function of parent (any depth)
+// that contains an instruction matching m ("" if none or ambiguous).
+func (c *Ctx) anonWith(parent string, m IM) string {
+	fn := c.F(parent)
+	if fn == nil {
+		return ""
+	}
+	var found []string
+	var walk func(f *ssa.Function)
+	walk = func(f *ssa.Function) {
+		for _, an := range f.AnonFuncs {
+			if len(Instrs(an, m)) > 0 {
+				found = append(found, c.P.FuncName(an))
+			}
+			walk(an)
+		}
+	}
+	walk(fn)
+	if len(found) == 1 {
+		c.Funcs[found[0]] = true
+		return found[0]
+	}
+	return ""
+}
+
+// closureArgName returns the function name of the closure passed as argument
+// idx of the first call in fname matching m.
+func (c *Ctx) closureArgName(fname string, m IM, idx int) string {
+	for _, in := range Instrs(c.F(fname), m) {
+		v := callVals(in)
+		if idx < len(v) {
+			if mc, ok := v[idx].(*ssa.MakeClosure); ok {
+				return c.P.FuncName(mc.Fn.(*ssa.Function))
+			}
+		}
+	}
+	return ""
+}
+
+// sourceCall finds the call instruction that produced value v (through
+// Extract and single-store local cells).
+func sourceCall(v ssa.Value, depth int) *ssa.Call {
+	if depth == 0 || v == nil {
+		return nil
+	}
+	switch x := v.(type) {
+	case *ssa.Call:
+		return x
+	case *ssa.Extract:
+		return sourceCall(x.Tuple, depth-1)
+	case *ssa.Convert:
+		return sourceCall(x.X, depth-1)
+	case *ssa.ChangeType:
+		return sourceCall(x.X, depth-1)
+	case *ssa.UnOp:
+		if al, ok := x.X.(*ssa.Alloc); ok && al.Referrers() != nil {
+			var st *ssa.Store
+			n := 0
+			for _, r := range *al.Referrers() {
+				if s, ok := r.(*ssa.Store); ok && s.Addr == ssa.Value(al) {
+					st = s
+					n++
+				}
+			}
+			if n == 1 {
+				return sourceCall(st.Val, depth-1)
+			}
+		}
+	}
+	return nil
+}
+
+// ArgSource matches the call instructions whose results are argument idx of
+// the calls in fname matching m.
+func (c *Ctx) ArgSource(fname string, m IM, idx int) IM {
+	set := map[ssa.Instruction]bool{}
+	for _, in := range Instrs(c.F(fname), m) {
+		v := callVals(in)
+		if idx < len(v) {
+			if sc := sourceCall(v[idx], 6); sc != nil {
+				set[sc] = true
+			}
+		}
+	}
+	return func(in ssa.Instruction) bool { return set[in] }
 }
